@@ -2,6 +2,10 @@
 C18 (order and sizes) — the packing list is deterministic in its ORDER too, and the size attribute of a record is the
 one of the earliest record that contributed.
 
+These statements go beyond what property C18 demands (C18 fixes the SET of records and digests, not their order), so
+no monitor judges the implementation by them: they describe the model, and the model's record order and sizes are
+compared with the written packing list by the correspondence check only.
+
 About `MhlModel.flattenRecords` for arbitrary `gens : List LGen` (nothing assumed):
 
 * `flatten_order`: the paths of the records, in the order written, are the paths of the non-failed file entries of
